@@ -7,7 +7,7 @@
     - [pipeline : str -> outcome pipe_obs] = from_raw; display; pretty; and the re-parse of both
       outputs (what the `parse` domain of the harness observes on the real crates).
 
-    The model follows branch agent-pipeline, i.e. with repair 51d7d56 ([Display for
+    The model follows branch agent-pipeline, i.e. with repair 92063b3 ([Display for
     XmlDeclarationAttList] prints the declaration, D11); [display_pinned] is the printer of the
     pinned code, kept for the refutation in Properties/C04.v. *)
 From Coq Require Import List NArith Bool.
@@ -125,7 +125,7 @@ Definition d_adefault (d : adefault) : str :=
 Definition d_attdef (d : attdef) : str :=
   d_name (xd_prefix d) (xd_local d) ++ 32 :: d_att_type (xd_ty d) ++ 32 :: d_adefault (xd_value d).
 
-(** Display for XmlDeclarationAttList: after 51d7d56; the pinned code printed nothing *)
+(** Display for XmlDeclarationAttList: after 92063b3; the pinned code printed nothing *)
 Definition d_attlist (pinned : bool) (a : attlist) : str :=
   if pinned then [] else
   s_attlist_open ++ d_name (al_prefix a) (al_local a) ++ flat_map (fun d => 32 :: d_attdef d) (al_atts a) ++ [62].
